@@ -744,8 +744,19 @@ impl<'a, T: QueryToRelationTranslator + Copy + Clone> VisitedQueryRelations<'a, 
             order_by,
             limit,
             offset,
+            fetch,
             ..
         } = query;
+        // FETCH FIRST n ROWS ONLY is another spelling of LIMIT n
+        let limit = &match fetch {
+            Some(ast::Fetch {
+                with_ties: false,
+                percent: false,
+                quantity: Some(quantity),
+            }) if limit.is_none() => Some(quantity.clone()),
+            Some(fetch) => return Err(Error::parsing_error(fetch)),
+            None => limit.clone(),
+        };
         match body.as_ref() {
             ast::SetExpr::Select(select) => {
                 let RelationWithColumns(relation, columns) =
